@@ -41,7 +41,7 @@ CLAIMED = {
              text="Component pairs are decided completely (finite domains enumerated, linear maps on a basis); cipher round trips are sampled by key/block class for every cipher and size, and each enc/dec is also compared with the specification so that a consistent pair of wrong functions is caught.",
              ref="DESIGN.md section 7 C03"),
 
- 'C05': dict(tech="TLC: SP 800-38A modes over a toy cipher model-checked on every message of 0..7 bytes (round trip, domain, shape, counter blocks incl. wrap) + the same complete space replayed on the real ECB/CBC/CTR/CTS classes over the same toy cipher and a residue grid over the real ciphers, every result trace-validated by TLC",
+ 'C05': dict(tech="TLC: SP 800-38A modes over a toy cipher model-checked on every message of 0..7 bytes (round trip, domain, shape, counter blocks incl. wrap) + the same complete space replayed on the real ECB/CBC/CTR/CTS classes over the same toy cipher and a residue grid over the real ciphers, every result trace-validated by TLC; single calls on 1 KiB..64 KiB (more than 256 and more than 4096 blocks) recorded as segments of whole blocks and judged independently (ECB; CBC chained from the recorded previous block; CTR with the counter advanced in the specification)",
              text="Mode logic is decided exhaustively for small messages: the real mode classes run over a Python object implementing the specification's toy cipher and every ciphertext/plaintext is compared by TLC (2- and 4-byte blocks, all admissible paddings, IV classes, counter halves at 0/max-1/max).  With the real ciphers (AES-128/192/256, DES, TDEA, Serpent, Threefish-256/512/1024) keys/IVs are random and lengths cover every residue class boundary over 0..3 blocks; CTS is held to length, IV prefix and round trip.",
              ref="DESIGN.md section 7 C05"),
 
@@ -53,7 +53,7 @@ CLAIMED = {
              text="Exhaustive: the whole configuration space of Keccak[25] (quick) and Keccak[50] (thorough): every rate 0<r<b, every bit length 0..2r+2, both bit-order conventions.  Boundary grid for b in {50..1600}: rates incl. non-multiples of 8 and r<8, L mod r in {0,1,r-2,r-1}, L mod 8, data longer than the bit length, output lengths 1, r-1, r, r+1, 2r+3; module singletons; SHA3-224..512 and SHAKE128/256 around the rate boundary; duplex call sequences on one object.  Message content is seeded.",
              ref="DESIGN.md section 7 C04"),
 
- 'C06': dict(tech="TLC: RC4 stream object model-checked over N=8 (every split, permutation invariant, one continuous stream) + TLC trace validation of Salsa20/ChaCha/RC4 objects against TLA+ transcriptions of the Salsa20, ChaCha and RC4 specifications (validated against spec examples, OpenSSL-frozen vectors)",
+ 'C06': dict(tech="TLC: RC4 stream object model-checked over N=8 (every split, permutation invariant, one continuous stream) + TLC trace validation of Salsa20/ChaCha/RC4 objects against TLA+ transcriptions of the Salsa20, ChaCha and RC4 specifications (validated against spec examples, OpenSSL-frozen vectors); single Salsa20/ChaCha calls on 4 KiB..64 KiB (thorough: 1 MiB) judged as independent 1 KiB segments (segment law in the spec self-tests), one RC4 call on 8 KiB judged in 512-byte segments along the continuous stream",
              text="Salsa20/ChaCha: both key sizes, nonce classes, every even round count 2..20 (thorough) / 8, 20 and a rotating third (quick), |M| in {0,1,63,64,65,127,128,129,191,200}, prefixes, dec, start blocks 2^32-2..2^32+1 through hook H1 for the counter carry, the Salsa20 core; RC4: key lengths {1,2,5,16,255,256}, every composition of 6 bytes into pieces of 0..3 bytes and seeded piece sequences on one object incl. empty pieces, rejected key lengths.  Keys/nonces/messages are seeded.",
              ref="DESIGN.md section 7 C06"),
 
